@@ -701,6 +701,12 @@ def check_convergence_measure(rep: Report, ix):
                 raise AnalysisError(f"{f.ref}: {e}") from e
             want = x**2 + y**2
             ok = sp.simplify(term - want) == 0
+            if not ok and sp.simplify(term - sp.sqrt(want)) == 0:
+                # the modulus itself is a norm as well; it must then be compared with maxerror (not its square)
+                tdefs0 = [a for a in ast.walk(f.parent.node if f.parent else f.node) if isinstance(a, ast.Assign) and any(isinstance(tt, ast.Name) and tt.id == tol for tt in a.targets)]
+                if len(tdefs0) == 1 and ast.unparse(tdefs0[0].value).endswith("maxerror"):
+                    rep.oblige(f"{qn}: per-cell error term = |diff| compared with maxerror", True, ast.unparse(adds[0].value))
+                    continue
             rep.oblige(f"{qn}: per-cell error term = |diff|^2 for complex diff", ok, {"term": ast.unparse(adds[0].value), "for diff = x + i y": str(term)})
             if not ok:
                 rep.violation(
